@@ -135,6 +135,13 @@ func c19Genesis(a *app.OsmosisApp, gs app.GenesisState) {
 	var pg poolmanagertypes.GenesisState
 	cdc.MustUnmarshalJSON(gs[poolmanagertypes.ModuleName], &pg)
 	pg.Params.TakerFeeParams.AdminAddresses = []string{chain.DetAccount("acc", 7).Addr.String()}
+	// every taker-fee destination in use (staking rewards with smoothing, community pool, burn), for both fee kinds
+	split := poolmanagertypes.TakerFeeDistributionPercentage{StakingRewards: osmomath.MustNewDecFromStr("0.5"), CommunityPool: osmomath.MustNewDecFromStr("0.3"), Burn: osmomath.MustNewDecFromStr("0.2")}
+	pg.Params.TakerFeeParams.OsmoTakerFeeDistribution = split
+	pg.Params.TakerFeeParams.NonOsmoTakerFeeDistribution = split
+	pg.Params.TakerFeeParams.CommunityPoolDenomToSwapNonWhitelistedAssetsTo = "uosmo"
+	pg.Params.TakerFeeParams.CommunityPoolDenomWhitelist = []string{"foo"}
+	pg.Params.TakerFeeParams.DailyStakingRewardsSmoothingFactor = 3
 	gs[poolmanagertypes.ModuleName] = cdc.MustMarshalJSON(&pg)
 	// reach reward reductions within a history
 	var mg minttypes.GenesisState
@@ -361,7 +368,7 @@ func (g *c19Gen) randomBlock() ([][]byte, []string) {
 		d := ""
 		kind := r.Intn(19)
 		if r.Intn(5) < 2 {
-			kind = 19 + r.Intn(13)
+			kind = 19 + r.Intn(15)
 		}
 		switch kind {
 		case 19: // validator-set preference
@@ -506,6 +513,26 @@ func (g *c19Gen) randomBlock() ([][]byte, []string) {
 				}
 				msg, d = &sftypes.MsgAddToConcentratedLiquiditySuperfluidPosition{PositionId: sfp[r.Intn(len(sfp))], Sender: a.Addr.String(), TokenDesired0: c("bar", 1000+r.I64n(100000000)), TokenDesired1: c("uosmo", 1000+r.I64n(100000000))}, "superfluid cl-add"
 			}
+		case 32: // a transaction that creates a pool and then fails as a whole (the pool id is handed out again later)
+			bm := balancer.NewMsgCreateBalancerPool(a.Addr, balancer.NewPoolParams(osmomath.MustNewDecFromStr("0.003"), osmomath.ZeroDec(), nil),
+				[]balancer.PoolAsset{{Weight: sdkmath.NewInt(1), Token: c("uosmo", 1000000+r.I64n(1000000))}, {Weight: sdkmath.NewInt(1), Token: c("baz", 1000000+r.I64n(1000000))}}, "")
+			bad := &banktypes.MsgSend{FromAddress: a.Addr.String(), ToAddress: g.acc(r.Intn(8)).Addr.String(), Amount: sdk.NewCoins(sdk.NewCoin("foo", sdkmath.NewIntWithDecimal(1, 60)))}
+			txs = append(txs, g.sign(a, &bm, bad))
+			ds = append(ds, "create-pool then fail")
+			continue
+		case 33: // a new pool of a random type
+			switch r.Intn(3) {
+			case 0:
+				cm := clmodel.NewMsgCreateConcentratedPool(a.Addr, []string{"baz", "foo", "bar"}[r.Intn(3)], "uosmo", []uint64{1, 10, 100, 1000}[r.Intn(4)], osmomath.MustNewDecFromStr([]string{"0.0001", "0.0005", "0.003", "0.01"}[r.Intn(4)]))
+				msg, d = &cm, "create-pool cl"
+			case 1:
+				sm := stableswap.NewMsgCreateStableswapPool(a.Addr, stableswap.PoolParams{SwapFee: osmomath.MustNewDecFromStr("0.002"), ExitFee: osmomath.ZeroDec()}, sdk.NewCoins(c("baz", 1000000+r.I64n(9000000)), c("bar", 1000000+r.I64n(9000000))), []uint64{1, 1}, "")
+				msg, d = &sm, "create-pool stableswap"
+			default:
+				bm := balancer.NewMsgCreateBalancerPool(a.Addr, balancer.NewPoolParams(osmomath.MustNewDecFromStr("0.005"), osmomath.ZeroDec(), nil),
+					[]balancer.PoolAsset{{Weight: sdkmath.NewInt(int64(1 + r.Intn(5))), Token: c("foo", 1000000+r.I64n(9000000))}, {Weight: sdkmath.NewInt(int64(1 + r.Intn(5))), Token: c("baz", 1000000+r.I64n(9000000))}}, "")
+				msg, d = &bm, "create-pool balancer"
+			}
 		case 31: // protorev administration
 			adm := g.acc(7)
 			if used[7] && ai != 7 {
@@ -573,7 +600,7 @@ func (g *c19Gen) randomBlock() ([][]byte, []string) {
 			if !have.IsPositive() {
 				continue
 			}
-			msg, d = &lockuptypes.MsgLockTokens{Owner: a.Addr.String(), Duration: []time.Duration{time.Hour, 3 * time.Hour, 7 * time.Hour, 14 * 24 * time.Hour}[r.Intn(4)], Coins: sdk.NewCoins(sdk.NewCoin("gamm/pool/1", sdkmath.MaxInt(sdkmath.OneInt(), have.QuoRaw(5+r.I64n(20)))))}, "lock"
+			msg, d = &lockuptypes.MsgLockTokens{Owner: a.Addr.String(), Duration: []time.Duration{time.Hour, 3 * time.Hour, 7 * time.Hour, 14 * 24 * time.Hour, 21 * 24 * time.Hour}[r.Intn(5)] + time.Duration(r.Intn(3)*r.Intn(25))*time.Minute, Coins: sdk.NewCoins(sdk.NewCoin("gamm/pool/1", sdkmath.MaxInt(sdkmath.OneInt(), have.QuoRaw(5+r.I64n(20)))))}, "lock"
 		case 9:
 			ls := ch.App.LockupKeeper.GetAccountPeriodLocks(ch.Ctx, a.Addr)
 			if len(ls) == 0 {
@@ -868,7 +895,7 @@ func runC19(c *vk.Ctx) {
 	if c19RunRole(c) {
 		return
 	}
-	c.R.Rule = "cases = transaction histories (signed transactions through FinalizeBlock: pool creation, joins/exits of every kind on balancer / stableswap / 3-asset pools, routed / split swaps of both kinds with taker fees incl. failing ones, concentrated positions (create / add / withdraw / transfer / claims), external no-lock gauges, locks with reward receivers, partial unlocks, superfluid delegate / undelegate / unbond on a share denom and through concentrated full-range positions (assets enabled by recorded admin actions), validator-set preferences, plain staking and reward withdrawals, a weight-shifting balancer pool, lock gauges with two reward denoms, token-factory mint / burn / force-transfer / change-admin / metadata, smart-account authenticators, protorev administration, fees paid in a registered non-native fee token, minted pool incentives routed by distribution records, bank sends; several transactions per block; day and week epoch boundaries) generated and executed by a primary process; 3 replica processes replay the history with GOMAXPROCS 1 / 4 / 16 and different GOGC (every process has its own map-iteration seeds); for every export point (every k-th block and every epoch block) a fresh process is initialised from the exported state and fed the rest of the history. Compared: app hash, per-transaction code / codespace / gas / data / events and block events between replicas of one lineage; per-transaction results, canonicalised per-module exported state and a query battery (spot prices, estimates, TWAPs, balances, locks, gauges, positions with claimable rewards, delegations, validator-set preferences, authenticators, fee tokens, distribution records, supplies) at the final height between the original and every imported node. distinct_nontrivial counts distinct (comparison kind, message kinds in the block, epoch block?, export distance bucket) tuples."
+	c.R.Rule = "cases = transaction histories (signed transactions through FinalizeBlock: pool creation, joins/exits of every kind on balancer / stableswap / 3-asset pools, routed / split swaps of both kinds with taker fees incl. failing ones, concentrated positions (create / add / withdraw / transfer / claims), external no-lock gauges, locks with reward receivers, partial unlocks, superfluid delegate / undelegate / unbond on a share denom and through concentrated full-range positions (assets enabled by recorded admin actions), validator-set preferences, plain staking and reward withdrawals, a weight-shifting balancer pool, lock gauges with two reward denoms, token-factory mint / burn / force-transfer / change-admin / metadata, smart-account authenticators, protorev administration, fees paid in a registered non-native fee token, minted pool incentives routed by distribution records, bank sends; several transactions per block; day and week epoch boundaries) generated and executed by a primary process; 3 replica processes replay the history with GOMAXPROCS 1 / 4 / 16 and different GOGC (every process has its own map-iteration seeds); for every export point (every k-th block and every epoch block) a fresh process is initialised from the exported state and fed the rest of the history; one export is imported twice and the two imported nodes must have identical app hashes. Compared: app hash, per-transaction code / codespace / gas / data / events and block events between replicas of one lineage; per-transaction results, canonicalised per-module exported state and a query battery (spot prices, estimates, TWAPs, balances, locks, gauges, positions with claimable rewards, delegations, validator-set preferences, authenticators, fee tokens, distribution records, supplies) at the final height between the original and every imported node. distinct_nontrivial counts distinct (comparison kind, message kinds in the block, epoch block?, export distance bucket) tuples."
 	nHist := c.N(2, 16)
 	nBlocks := c.N(60, 400)
 	if os.Getenv("VERIF_C19_MODE") == "race" {
@@ -946,9 +973,16 @@ func runC19(c *vk.Ctx) {
 			}
 			exports = pick
 		}
-		for _, e := range exports {
+		twinOf := ""
+		for k, e := range exports {
 			h := strings.TrimSuffix(strings.TrimPrefix(filepath.Base(e), "export-"), ".json")
 			jobs = append(jobs, job{"import-" + h, env("import", "import-"+h, map[string]string{"VERIF_C19_EXPORT": e, "GOMAXPROCS": "3"})})
+			if k == len(exports)-1 && !raceMode {
+				// a second node initialised from the same exported state: two imports of one state are one lineage and
+				// must agree bit for bit (app hashes), whatever order InitGenesis walks its in-memory maps in
+				twinOf = "import-" + h
+				jobs = append(jobs, job{"importtwin-" + h, env("import", "importtwin-"+h, map[string]string{"VERIF_C19_EXPORT": e, "GOMAXPROCS": "1", "GOGC": "30"})})
+			}
 		}
 		type done struct {
 			tag string
@@ -1004,7 +1038,27 @@ func runC19(c *vk.Ctx) {
 			sort.Strings(ks)
 			return strings.Join(ks, "+")
 		}
+		if twinOf != "" {
+			ta := c19ReadTrace(filepath.Join(dir, "trace-"+twinOf+".jsonl"))
+			tb := c19ReadTrace(filepath.Join(dir, "trace-"+strings.Replace(twinOf, "import-", "importtwin-", 1)+".jsonl"))
+			var hs []int64
+			for h := range ta {
+				hs = append(hs, h)
+			}
+			sort.Slice(hs, func(a, b int) bool { return hs[a] < hs[b] })
+			for _, h := range hs {
+				c.Eval(1)
+				if ta[h].AppHash != tb[h].AppHash {
+					c.Violate("C19.app_hash", map[string]any{"lineage": "import-twin", "epoch_block": false}, "height %d: two nodes initialised from the same exported state (%s) and fed the same blocks have app hashes %s and %s", h, twinOf, ta[h].AppHash, tb[h].AppHash)
+					return
+				}
+			}
+			c.Class("import-twin|%d-blocks", bucket(len(hs)))
+		}
 		for _, j := range jobs {
+			if strings.HasPrefix(j.tag, "importtwin-") {
+				continue
+			}
 			tr := c19ReadTrace(filepath.Join(dir, "trace-"+j.tag+".jsonl"))
 			isImport := strings.HasPrefix(j.tag, "import")
 			if len(tr) == 0 {
